@@ -110,9 +110,12 @@ Fixpoint accept_gt (m : ext) (sv : list (cand * ext)) (lw us : list ext) : list 
 Record batch := { cands : list cand; us : list ext; attempt : bool }.
    (* attempt: accumulate mode only - the oracle (logsumexp) said log_n_expected >= log_n *)
 
-(* FlowProposal.backward_pass filters x and log_prob with isfinite(log_prob) but not z, and then indexes all three with
-   the in-bounds flags: as soon as one log_prob of the batch is not finite the lengths differ and numpy raises
-   IndexError (strict = true) - unless none is finite (raises_index below).  AugmentedFlowProposal.backward_pass does not carry z along (strict = false). *)
+(* FlowProposal.backward_pass masks x, log_prob AND z with isfinite(log_prob) (since the fix: commit 51c1651), as
+   AugmentedFlowProposal.backward_pass always did for x and log_prob: candidates with a non-finite flow log-density are
+   dropped - this is strict = false, the code as it is now, and what the harness feeds to the model.
+   strict = true is the code BEFORE that fix, kept as a refuted variant (Props: C09_backward_pass_z_unmasked_refuted):
+   z was not masked, so indexing x, z, log_prob with the in-bounds flags raised IndexError as soon as some - but not all,
+   see raises_index - log_prob of the batch were not finite. *)
 Definition all_finite_lq (b : batch) : bool := forallb (fun c => is_fin (lq c)) (cands b).
 Definition some_finite_lq (b : batch) : bool := existsb (fun c => is_fin (lq c)) (cands b).
 (* numpy accepts a boolean index of length 0 whatever the array's length: no error when NO log_prob is finite *)
